@@ -51,14 +51,14 @@ package localfs
 //@   modifies $sm.G.localfs.qids.dom, $sm.G.localfs.qids.val, $au.G.localfs.nextQid
 //@   ensures[C20] Iqids()
 //@   ensures[C20] @no-error result1 == nil
-//@   ensures[C20] @likely-pairs-use-the-compact-encoding likelyOK(uint64(stat.Dev), stat.Ino) ==> result0 == likelyEnc(uint64(stat.Dev), stat.Ino)
-//@   ensures[C20] @stable-for-known-pairs !likelyOK(uint64(stat.Dev), stat.Ino) && old(smhas(qids, keyOf(uint64(stat.Dev), stat.Ino))) ==> result0 == unbox(old(smget(qids, keyOf(uint64(stat.Dev), stat.Ino))), uint64)
-//@   ensures[C20] @recorded !likelyOK(uint64(stat.Dev), stat.Ino) ==> smhas(qids, keyOf(uint64(stat.Dev), stat.Ino)) && typeis(smget(qids, keyOf(uint64(stat.Dev), stat.Ino)), uint64) && unbox(smget(qids, keyOf(uint64(stat.Dev), stat.Ino)), uint64) == result0
-//@   ensures[C20] @fallback-has-bit-63 !likelyOK(uint64(stat.Dev), stat.Ino) ==> result0 > (1<<63)
+//@   local_ensures[C20] @likely-pairs-use-the-compact-encoding likelyOK(uint64(stat.Dev), stat.Ino) ==> result0 == likelyEnc(uint64(stat.Dev), stat.Ino)
+//@   local_ensures[C20] @stable-for-known-pairs !likelyOK(uint64(stat.Dev), stat.Ino) && old(smhas(qids, keyOf(uint64(stat.Dev), stat.Ino))) ==> result0 == unbox(old(smget(qids, keyOf(uint64(stat.Dev), stat.Ino))), uint64)
+//@   local_ensures[C20] @recorded !likelyOK(uint64(stat.Dev), stat.Ino) ==> smhas(qids, keyOf(uint64(stat.Dev), stat.Ino)) && typeis(smget(qids, keyOf(uint64(stat.Dev), stat.Ino)), uint64) && unbox(smget(qids, keyOf(uint64(stat.Dev), stat.Ino)), uint64) == result0
+//@   local_ensures[C20] @fallback-has-bit-63 !likelyOK(uint64(stat.Dev), stat.Ino) ==> result0 > (1<<63)
 // concurrent first lookups of one pair must agree: the entry is created by the
 // atomic insert-if-absent, whose winner every caller returns
-//@   ensures[C20] @new-pairs-are-inserted-atomically !likelyOK(uint64(stat.Dev), stat.Ino) && !old(smhas(qids, keyOf(uint64(stat.Dev), stat.Ino))) ==> ncalls("(*sync.Map).LoadOrStore") == 1
-//@   ensures[C20] @other-pairs-untouched forall(k, any, k != keyOf(uint64(stat.Dev), stat.Ino) ==> smhas(qids, k) == old(smhas(qids, k)) && smget(qids, k) == old(smget(qids, k)))
+//@   local_ensures[C20] @new-pairs-are-inserted-atomically !likelyOK(uint64(stat.Dev), stat.Ino) && !old(smhas(qids, keyOf(uint64(stat.Dev), stat.Ino))) ==> ncalls("(*sync.Map).LoadOrStore") == 1
+//@   local_ensures[C20] @other-pairs-untouched forall(k, any, k != keyOf(uint64(stat.Dev), stat.Ino) ==> smhas(qids, k) == old(smhas(qids, k)) && smget(qids, k) == old(smget(qids, k)))
 //@   maypanic
 
 // ---- C19: one page of a local directory ---------------------------------------
@@ -69,9 +69,16 @@ package localfs
 // of an entry is its index + 1, so resuming at the Offset of the last entry
 // received continues with the next one; a page holds at most count entries
 // (the server cuts the reply to the requested byte count, rreaddir.encode).
+// info (C20): proved against its body - the identity (QID path) and the type
+// come from one stat of the named file itself: os.Lstat, which never follows a
+// symbolic link (a link and its target are different (device, inode) pairs and
+// keep different paths and types). What the OS reports, and the state of the
+// fallback table at the call (presumed, listed), are not modelled here.
 //@ func (*Local).info
-//@   abstract
 //@   modifies $sm.G.localfs.qids.dom, $sm.G.localfs.qids.val, $au.G.localfs.nextQid
+//@   at os.Lstat requires[C20] @identifies-the-named-file-itself-never-a-link-target arg0 == l.path && l.file == nil
+//@   at localToQid presume Iqids() && au(nextQid) >= (1<<63) && au(nextQid) < 18446744073709551615
+//@   at localToQid requires[C20] @path-and-type-come-from-one-stat arg1 == fi
 //@   maypanic
 //
 //@ func (*Local).Readdir
